@@ -29,8 +29,17 @@ def _call_exit(E, outcome, value, env, prefix):
         ob('result_is_rendering', value is r['ret'], 'without dtml-return the call returns the rendering')
 
 
+def _both_hooks(*hooks):
+    def hook(E, outcome, value, env, prefix):
+        for h in hooks:
+            h(E, outcome, value, env, prefix)
+    return hook
+
+
+from contracts import dt_ns  # noqa
+
 contract(S_ + '.__call__', variant='subtemplate',
-         exit_hook=_call_exit,
+         exit_hook=_both_hooks(_call_exit, dt_ns.call_order_hook(False)),
          params=dict(self=_self(), client=Opaque(), mapping=TD(), kw=DictS()),
          ensures=dict(stack="stack_unchanged(mapping)", level="level_of(mapping) == old(level_of(mapping))"),
          exc_ensures=dict(stack="stack_unchanged(mapping)", level="level_of(mapping) == old(level_of(mapping))"),
@@ -39,7 +48,28 @@ contract(S_ + '.__call__', variant='subtemplate',
                              inv=dict(own="stack_extra(md) >= 0",
                                       counted="stack_extra(md) == pushed",
                                       level="level_of(md) == old(level_of(mapping)) + 1"),
-                             havoc_stack=[("md", "clients")],
+                             havoc_stack=[("md", "clients")], on_iteration=dt_ns.client_loop_iter,
+                             types={'ob': 'opaque', 'pushed': 'int'})})
+
+def _no_taint_wrapper(E, env):
+    # top-level variant: a mapping without taintWrapper (a request's taintWrapper() result is itself such a mapping)
+    E.ghost[('hasattr', 'mapping', 'taintWrapper')] = False
+    E.assumptions_used.add('String.__call__ top-level variant: the mapping argument is not a TemplateDict and has no taintWrapper')
+
+
+# top-level call: the template builds its own namespace
+contract(S_ + '.__call__', variant='toplevel',
+         params=dict(self=_self(), client=Opaque(),
+                     mapping=Opaque(types={'DocumentTemplate._DocumentTemplate.TemplateDict': False,
+                                           'exact:DocumentTemplate._DocumentTemplate.TemplateDict': False}),
+                     kw=DictS()),
+         exit_hook=_both_hooks(_call_exit, dt_ns.call_order_hook(True)),
+         pre_hook=_no_taint_wrapper,
+         uses=[RB, S_ + '.cook'],
+         invariants={1: dict(header="for ob in client",
+                             ghost={'n0': "len_of(md._data) - pushed"}, ghost_types={'n0': 'same'},
+                             inv=dict(counted="len_of(md._data) - pushed == n0"),
+                             havoc_stack=[("md", "clients")], on_iteration=dt_ns.client_loop_iter,
                              types={'ob': 'opaque', 'pushed': 'int'})})
 
 contract(S_ + '.cook', params=dict(self=_self()), raises_any=True)
